@@ -56,6 +56,8 @@ fix-c09-stale-index-entries, `cfg.purge = false`; harness cases `directed-class-
 path: `writeExisting` removes the entries of a freed address from the queued tables) the stale
 variant of F28 and F29 no longer occur (Pdb/Props/C09Stale.lean: `C09_twin_fixed`; both directed
 cases agree with the fixed crate); F28 with 65 LIVE keys of one class remains.
+With `cfg.purge = true` NO STALE ENTRY exists in any reachable state (`Pdb.Index.NoStale`,
+`NoStale_run` in Pdb/Props/C09NoStale.lean; evaluated on dumps of the real crate by `t2 nostale`).
   F28  More than 64 index entries whose keys agree on the index page at every index size (e.g. on
        all 50 index-visible bits) cannot be separated by growth: every reindex pass over the queue
        front ends in another `trigger_reindex`, the index never settles (`C09_full_statement_false_65`;
@@ -64,7 +66,10 @@ cases agree with the fixed crate); F28 with 65 LIVE keys of one class remains.
        (`writeExisting`, `j ≠ 0`) and copied by `reindexBatch` like live ones, so 64 live keys of
        one class are enough.  This is why the totality theorem (`C09_run_total`) bounds the number
        of `set` OPERATIONS per class of keys, not the number of keys.
-  F29  Assumption A-tail (distinct hashed keys differ in bytes 6..32) is needed: `searchTable`
+  F29  Assumption A-tail (distinct hashed keys differ in bytes 6..32) is needed BY THE CODE BEFORE
+       fix-c09-stale-index-entries (`cfg.purge = false`); for the fixed code it is not: `NoStale_run`
+       (no stale entry in any reachable state) and `C09_lookup_latest_notail` (Pdb/Props/C09NoStale.lean)
+       are proved without it, only keys equal on all 256 bits are identified.  Before the fix `searchTable`
        accepts a candidate entry when the slot holds the key's 26-byte tail.  Two keys that differ
        only in bytes 0..5 share the tail; a stale entry of the first one resolves to the value of
        the second one once it has taken the freed slot (`C09_full_statement_false_twin`).
